@@ -505,14 +505,14 @@ func genEdit(c *simrt.Choices, u *Universe, g genCfg, snapshots []*Universe) (*U
 			// edit back to "directory" yields the directory the command produced before
 			if s.Outs[i].Kind == "file" {
 				tree := []TreeEnt{{Rel: "x.dat", Kind: "file"}}
-				if s.Outs[i].Stash != nil {
-					tree = s.Outs[i].Stash
+				if s.Outs[i].WasDir {
+					tree = s.Outs[i].Stash // possibly empty: the command produced an empty directory
 				}
-				s.Outs[i].Kind, s.Outs[i].Tree, s.Outs[i].Stash = "dir", tree, nil
+				s.Outs[i].Kind, s.Outs[i].Tree, s.Outs[i].Stash, s.Outs[i].WasDir = "dir", tree, nil, false
 				done = true
 				break
 			} else if s.Outs[i].Kind == "dir" {
-				s.Outs[i].Kind, s.Outs[i].Stash, s.Outs[i].Tree = "file", s.Outs[i].Tree, nil
+				s.Outs[i].Kind, s.Outs[i].Stash, s.Outs[i].Tree, s.Outs[i].WasDir = "file", s.Outs[i].Tree, nil, true
 				done = true
 				break
 			}
